@@ -1594,7 +1594,7 @@ class Parameter(_ParameterBase):
             ref, deps, val, is_async = obj.param._resolve_ref(self, val)
             refs = obj._param__private.refs
             if ref is not None:
-                relink = partial(self.owner.param._update_ref, name, ref)
+                relink = partial(obj.param._update_ref, name, ref)
             elif name in refs and not syncing:
                 # A plain value ends the link: drop the reference together
                 # with the watchers installed on its sources.
